@@ -344,6 +344,26 @@ func run(c *core.Ctx) {
 		if !proto.Equal(q, g) {
 			j.bad("endorse.SignDoc", "signed-payload-differs-from-computed-message", "payload (without cert/bundle/timestamp) != GoldenMeasurement result")
 		}
+		// signing the SAME document again for a later request (a retry, a second key) must carry that request's
+		// timestamp and signing fields: SignDoc fills them in right before marshalling, whatever the document held
+		ec2 := *ec
+		ec2.Timestamp = ec.Timestamp.Add(time.Duration(1+r.IntN(100000)) * time.Second)
+		kctx2, _ := a.Context(&doubles.FCtl{}, authority.Opts{})
+		var e2 *epb.VMLaunchEndorsement
+		c.Guard(i, "endorse.SignDoc", gname, core.Budget{PanicNotJudged: true}, func() { e2, err = endorse.SignDoc(endorse.NewContext(kctx2, &ec2), doc) })
+		if err != nil || e2 == nil {
+			j.bad("endorse.SignDoc", "re-signing-failed", "%v", err)
+		} else {
+			p2 := &epb.VMGoldenMeasurement{}
+			proto.Unmarshal(e2.SerializedUefiGolden, p2)
+			if ts := p2.Timestamp.AsTime(); !ts.Equal(ec2.Timestamp) {
+				j.bad("endorse.SignDoc", "timestamp-differs-from-request", "document signed a second time for a request at %v carries timestamp %v", ec2.Timestamp, ts)
+			}
+			if !bytes.Equal(p2.Cert, st.PrimaryCert.Raw) || !bytes.Equal(p2.CaBundle, bundle) {
+				j.bad("endorse.SignDoc", "certificate-is-not-the-primary-signing-certificate", "on re-signing")
+			}
+			c.Count("documents-signed-twice", 1)
+		}
 		if j.n == before {
 			okSigned++
 		}
